@@ -146,7 +146,7 @@ pub fn check(c: &Case, obs: &mut Obs) -> Result<(), String> {
 pub fn property() -> Property {
     Property {
         id: "C07",
-        rule: "An assignment = all 11 required variables plus a random subset of the 12 optional ones; scalar values are text without CR/LF (incl. empty, '=', 'a=b=c', leading/trailing blanks, tabs, non-ASCII, NUL, U+2028), integers from {0, +-1, i64::MIN, i64::MAX, random}, lists of 1-4 lines. Two independent call histories realise it: per variable 0-2 junk set_* calls, then set_*(final) | set_*(prefix)+push_* for the rest | pushes only; the runs of different variables are interleaved randomly. Queries are interleaved with the calls: is_completed() after every call, Display after every fifth, and a clone taken half-way is printed and read after the original has moved on. One value in ~25 is long (100-700 characters, lists of 20-90 lines). Oracle: (a) both histories print identically and equal M-summary.print(assignment) (fixed order, one line per value) and all 23 getters + description_as_str equal the assignment, is_completed() holds; (b) Summary::from_str(printed) is Ok with the same getters; (c) printing the parsed entry is byte-identical. Non-trivial = >= 3 optional variables set, >= 1 list of >= 2 lines and >= 1 awkward value (empty, contains '=', non-ASCII, negative or extreme integer). Distinct = distinct cases.",
+        rule: "An assignment = all 11 required variables plus a random subset of the 12 optional ones; scalar values are text without CR/LF (incl. empty, '=', 'a=b=c', leading/trailing blanks, tabs, non-ASCII, NUL, U+2028), integers from {0, +-1, i64::MIN, i64::MAX, random}, lists of 1-4 lines. Two independent call histories realise it: per variable 0-2 junk set_* calls, then set_*(final) | set_*(prefix)+push_* for the rest | pushes only; the runs of different variables are interleaved randomly. Queries are interleaved with the calls: is_completed() after every call, Display after every fifth, and a clone taken half-way is printed and read after the original has moved on. One value in ~25 is long (100-700 characters, lists of 20-90 lines). Oracle: (a) both histories print identically and equal M-summary.print(assignment) (fixed order, one line per value) and all 23 getters + description_as_str equal the assignment, is_completed() holds; (b) Summary::from_str(printed) is Ok with the same getters; (c) printing the parsed entry is byte-identical. Non-trivial = >= 3 optional variables set, >= 1 list of >= 2 lines and >= 1 awkward value (empty, contains '=', non-ASCII, negative or extreme integer). Distinct = distinct cases. Generators also draw, at low weight, tokens from the source-literal dictionary (every string / byte / character literal of the library's own source, collected at build time and filtered by this domain's character class) (values; FILE_NAME is PKGNAME + '.tgz' or PKGNAME in half of the entries that set it; values with U+FEFF, backslash escapes, quotes).",
         assumptions: vec!["values contain no CR/LF and lists are non-empty (domain of the property)"],
         streams: vec![random_stream(
             "histories",
